@@ -231,6 +231,52 @@ def bigindex_tu(rng, n):
     return '\n'.join(lines) + '\n', owners
 
 
+def sidefx_tu(rng):
+    """(1) `A.x op= C`, `A.x++` where the base expression A has side effects (evaluated exactly once);
+    (2) partially initialised automatic objects and compound literals of every size 1..40 on a dirtied stack (every byte the
+        initializer does not mention reads as zero)."""
+    lines = [PRELUDE, 'struct SE { int x; unsigned f : 5; long g : 40; char c; short h : 9; };', 'static struct SE arr[4]; static int idx; static struct SE *ptr; static int calls;',
+             'static struct SE *nextp(void) { calls++; return &arr[calls & 3]; }', 'static int nexti(void) { calls++; return calls & 3; }',
+             'static void reset(void) { for (int k = 0; k < 4; k++) { arr[k].x = k * 10 + 1; arr[k].f = k + 1; arr[k].g = k * 1000 + 7; arr[k].c = k + 2; arr[k].h = k - 2; } idx = 0; ptr = arr; calls = 0; }',
+             'static void dumpall(long id) { for (int k = 0; k < 4; k++) { OUTV(id, arr[k].x); OUTV(id, arr[k].f); OUTV(id, arr[k].g); OUTV(id, arr[k].c); OUTV(id, arr[k].h); } OUTV(id, idx); OUTV(id, ptr - arr); OUTV(id, calls); }']
+    owners = []
+    body = []
+    forms = []
+    for mem in ('x', 'f', 'g', 'c', 'h'):
+        for op in ('+= 5', '-= 3', '|= 8', '*= 2', '<<= 1', '^= 1', '%= 3'):
+            for base in ('arr[idx++].%s', 'ptr++->%s', 'nextp()->%s', 'arr[nexti()].%s', '(*(ptr += 2)).%s', 'arr[idx += 1, idx].%s', '(idx++, arr[2]).%s' if False else 'arr[++idx].%s'):
+                forms.append(('%s %s;' % (base % mem, op), 'op=|%s|%s' % (mem, base.split('.')[0].replace('%s', ''))))
+        for base in ('arr[idx++].%s', 'ptr++->%s', 'nextp()->%s'):
+            forms += [('%s++;' % (base % mem), 'post++|%s' % mem), ('++%s;' % (base % mem), 'pre++|%s' % mem), ('%s--;' % (base % mem), 'post--|%s' % mem)]
+            if base.startswith('nextp'):
+                forms.append(('{ long t = %s++; t += ++%s; OUTV(7777, t); }' % (base % mem, base % mem), 'value-of-++|%s' % mem))
+    rng.shuffle(forms)
+    k = 0
+    for stmt, fk in forms[:160]:
+        body.append('reset(); %s dumpall(%d);' % (stmt, k))
+        owners += [('C04|member-update-with-side-effect-base|%s' % fk, stmt)] * (24 if fk.startswith('value-of') else 23)
+        k += 1
+    # partially initialised locals
+    pl = []
+    for n in range(1, 41):
+        pl.append(('char b[%d] = {1};' % n, 'b', n, 'char-array'))
+        if n >= 3:
+            pl.append(('char b[%d] = "ab";' % n, 'b', n, 'string'))
+        pl.append(('struct { char c[%d]; } b = {{2}};' % n, '&b', n, 'struct'))
+        if n % 4 == 0:
+            pl.append(('int b[%d] = {7};' % (n // 4), 'b', n, 'int-array'))
+        pl.append(('char *q = (char [%d]){3};' % n, 'q', n, 'compound-literal'))
+        pl.append(('char b[%d] = {};' % n, 'b', n, 'empty-braces'))
+        pl.append(('char b[%d] = {[%d] = 9};' % (n, n - 1), 'b', n, 'last-designated'))
+    fns = []
+    for j, (decl, ref, n, kind) in enumerate(pl):
+        fns.append('static void pi%d(void) { %s OUT(%d, %s, %d); }' % (j, decl, 100000 + j, ref, n))
+        body.append('dirty_stack(); pi%d();' % j)
+        owners.append(('C04|partial-init-local|%s|size%%8=%d' % (kind, n % 8), decl))
+    src = '\n'.join(lines) + '\n' + '\n'.join(fns) + '\nint main(void) {\n' + '\n'.join(body) + '\nreturn 0; }\n'
+    return src, owners
+
+
 def run_tu(a):
     (idx, cc, work, src, probes) = a
     p = os.path.join(work, 'tu%d.c' % idx)
@@ -271,6 +317,9 @@ def run(ctx):
         tus.append((src, owners, 'access'))
     for i in range(ctx.scale(4, 40)):
         src, owners = bigindex_tu(rng, 400)
+        tus.append((src, owners, 'access'))
+    for i in range(ctx.scale(2, 12)):
+        src, owners = sidefx_tu(rng)
         tus.append((src, owners, 'access'))
     # VLA / alloca programs
     nv = ctx.scale(24, 200)
